@@ -249,7 +249,7 @@ def el1(proj, rep, modules=None):
 
 
 # ------------------------------------------------------------------------------------------------ DT5
-RULE_DT5 = ('DT5: in the GF(2) modules every array constructor whose default dtype is float (eye / identity / zeros / ones / empty / full) names an integer '
+RULE_DT5 = ('DT5: the GF(2) modules use no floating-point linear algebra (det / inv / solve / matrix_rank), and every array constructor whose default dtype is float (eye / identity / zeros / ones / empty / full) names an integer '
             'dtype: a float64 matrix of zeros and ones passes every `% 2` arithmetic check, but it is not an element of the indexed representation '
             '(to_int_tuple asserts uint8; byte-keyed lookups and `^`, `&` fail).')
 _FLOAT_DEFAULT = {'eye', 'identity', 'zeros', 'ones', 'empty', 'full'}
@@ -279,6 +279,17 @@ def dt5(proj, rep, modules):
                 rep.violation('DT5', fi.qual, f'`{ast.unparse(c)[:70]}` has no dtype: float64 enters a GF(2) computation and the result is not a uint8 group element', m, c)
             else:
                 rep.ok('DT5', fi.qual, f'`{ast.unparse(c)[:50]}` dtype given', m, c)
+    # floating-point linear algebra has no place on GF(2) data: det / inv / solve / matrix_rank round beyond 2^53 (n >= 22) and lose parity
+    for fi in proj.iter_functions():
+        m = fi.module
+        if not _in_scope(m, modules):
+            continue
+        for c in ast.walk(fi.node):
+            if isinstance(c, ast.Call) and ast.unparse(c.func) in ('np.linalg.det', 'np.linalg.inv', 'np.linalg.solve', 'np.linalg.matrix_rank', 'np.linalg.lstsq',
+                                                                   'numpy.linalg.det', 'scipy.linalg.det', 'np.linalg.slogdet', 'np.linalg.pinv'):
+                rep.touch(m)
+                rep.violation('DT5', fi.qual, f'`{ast.unparse(c)[:60]}`: floating-point linear algebra on a GF(2) matrix: the integer determinant grows past 2^53 (n >= 22) and its '
+                              f'parity / rank is lost in rounding', m, c)
     rep.count('DT5.constructors', n)
     return n
 
@@ -1151,3 +1162,370 @@ def pr1_e6(proj, rep, modules):
     rep.count('PR1.bit_weight_sites', n)
     rep.count('E6.unicode_batch_functions', n6)
     return n, n6
+
+
+# ------------------------------------------------------------------------------------------------ D6 / NR1 / PG1
+RULE_D6 = ('D6: the sweep over the gate list dispatches EVERY gate: a loop over `gate_index_list` in the simulator contains no `continue` / `break` that skips a gate '
+           'before its kind is dispatched ("identity at zero angle" holds for the built-in rotations, not for a user-registered parameter gate).')
+RULE_NR1 = ('NR1: the simulator primitives `apply_*` are linear maps of the state: their result is never divided by a trace / norm computed from the data '
+            '(re-normalising K rho K^dagger erases the outcome probability of a Kraus operator or projector and is a no-op only for unitaries).')
+RULE_PG1 = ('PG1: gate parameters are never reduced modulo 2 pi in the simulator / gate modules: spinor rotations are 4 pi periodic, R(theta - 2 pi) = -R(theta), '
+            'which is a relative phase as soon as the gate is controlled.')
+
+
+def sim_sweeps(proj, rep, modules=('numqi.sim', 'numqi.gate')):
+    for k, v in (('D6', RULE_D6), ('NR1', RULE_NR1), ('PG1', RULE_PG1)):
+        rep.rule(k, v)
+    nloop = napply = nfun = 0
+    for fi in proj.iter_functions():
+        m = fi.module
+        if not _in_scope(m, list(modules)):
+            continue
+        nfun += 1
+        fname = fi.qual.rsplit('.', 1)[1]
+        # D6
+        for lp in ast.walk(fi.node):
+            if isinstance(lp, ast.For) and 'gate_index_list' in ast.unparse(lp.iter) and not isinstance(lp.iter, ast.Call) or \
+                    (isinstance(lp, ast.For) and isinstance(lp.iter, ast.Call) and 'gate_index_list' in ast.unparse(lp.iter)
+                     and ast.unparse(lp.iter.func) in ('enumerate', 'reversed', 'zip', 'list')):
+                if not any(isinstance(x, ast.Call) for s in lp.body for x in ast.walk(s)):
+                    continue
+                nloop += 1
+                rep.touch(m)
+                skips = [x for s in lp.body for x in ast.walk(s) if isinstance(x, (ast.Continue, ast.Break))
+                         and not any(isinstance(p, (ast.For, ast.While)) and p is not lp for p in _ancestors(x, lp))]
+                if skips:
+                    g = skips[0]
+                    cond = next((p for p in _ancestors(g, lp) if isinstance(p, ast.If)), None)
+                    rep.violation('D6', fi.qual, f'`{ast.unparse(cond.test)[:70] if cond is not None else "unconditional"}` -> `{"continue" if isinstance(g, ast.Continue) else "break"}` '
+                                  f'inside the sweep over the gate list: the gates it matches are never applied', m, g)
+                else:
+                    rep.ok('D6', fi.qual, f'sweep at line {lp.lineno} dispatches every gate', m, lp)
+        # NR1
+        if fname.startswith('apply_') and fi.cls is None:
+            napply += 1
+            rep.touch(m)
+            bad = None
+            for b in ast.walk(fi.node):
+                if isinstance(b, (ast.BinOp, ast.AugAssign)) and isinstance(b.op, ast.Div):
+                    den = b.right if isinstance(b, ast.BinOp) else b.value
+                    if any(isinstance(c, ast.Call) and ast.unparse(c.func).split('.')[-1] in ('trace', 'norm', 'vdot') for c in ast.walk(den)):
+                        bad = b
+            if bad is not None:
+                rep.violation('NR1', fi.qual, f'`{ast.unparse(bad)[:70]}` re-normalises the result by a data-dependent trace / norm: for a non-unitary operator the returned state is '
+                              f'K rho K^dagger / Tr(..), not K rho K^dagger', m, bad)
+            else:
+                rep.ok('NR1', fi.qual, 'result not re-normalised', m, fi.node, text=f'{fi.qual} linearity')
+        # PG1
+        for b in ast.walk(fi.node):
+            two_pi = None
+            if isinstance(b, ast.BinOp) and isinstance(b.op, ast.Mod):
+                two_pi = b.right
+            elif isinstance(b, ast.Call) and ast.unparse(b.func).split('.')[-1] in ('mod', 'remainder', 'fmod') and len(b.args) == 2:
+                two_pi = b.args[1]
+            if two_pi is not None and 'pi' in ast.unparse(two_pi):
+                rep.touch(m)
+                rep.violation('PG1', fi.qual, f'`{ast.unparse(b)[:60]}` wraps an angle modulo a multiple of pi: a rotation by theta and by theta - 2 pi differ by the sign -1', m, b)
+    rep.count('D6.gate_sweeps', nloop)
+    rep.count('NR1.apply_primitives', napply)
+    rep.count('PG1.functions_scanned', nfun)
+    if nfun:
+        rep.ok('PG1', 'numqi.sim + numqi.gate', f'{nfun} functions scanned: no angle is reduced modulo 2 pi', proj.mod('numqi.sim.circuit'), proj.mod('numqi.sim.circuit').tree,
+               text='angle wrap sweep')
+    return nloop, napply, nfun
+
+
+def _ancestors(node, stop):
+    out = []
+    while node is not stop and hasattr(node, '_parent'):
+        node = node._parent
+        out.append(node)
+    return out
+
+
+# ------------------------------------------------------------------------------------------------ AX1 / SM1 / SINC1 / VM1
+RULE_AX1 = ('AX1: an array that was given an open batch shape (`x.reshape(*shape[:-1], d, r)`: any number of leading batch axes) is reduced along NEGATIVE axes: '
+            '`norm(x, axis=1)` addresses the matrix row axis only for exactly one batch axis, and a batch axis or the column axis for every other batch shape.')
+RULE_SM1 = ('SM1: a hand-written overflow-safe softmax `exp(x - x.max(..)) / sum(axis=a)` takes the maximum along the axis of the normalising sum (keepdims): '
+            'the maximum of the whole array makes every sample that lies ~745 (float64) / ~88 (float32) below the global maximum underflow to 0/0.')
+RULE_SINC1 = ('SINC1: `sin(r)/r` with the same `r` in numerator and denominator is evaluated through a guarded form (np.sinc, where(r>eps, .., series)): the literal '
+              'quotient is NaN at r = 0 - the identity element / zero parameter vector.')
+RULE_VM1 = ('VM1: in the simulator an operator acts from the left: `op @ vec`. A flattened state on the left of `@` (`vec.reshape(-1) @ op`) applies the '
+            'TRANSPOSE of the operator: identical for symmetric gates (X, Z, H), the wrong sign for Y and wrong for every non-symmetric gate.')
+
+
+def ax1_sm1_sinc1_vm1(proj, rep, modules=None):
+    for k, v in (('AX1', RULE_AX1), ('SM1', RULE_SM1), ('SINC1', RULE_SINC1), ('VM1', RULE_VM1)):
+        rep.rule(k, v)
+    nopen = nfun = 0
+    for fi in proj.iter_functions():
+        m = fi.module
+        if not _in_scope(m, modules):
+            continue
+        nfun += 1
+        params = set(fi.all_params)
+        # ---- AX1: open-rank names
+        open_names = {}
+        for s in ast.walk(fi.node):
+            if isinstance(s, ast.Assign) and len(s.targets) == 1 and isinstance(s.targets[0], ast.Name) and isinstance(s.value, ast.Call) \
+                    and isinstance(s.value.func, ast.Attribute) and s.value.func.attr in ('reshape', 'view'):
+                txt = ast.unparse(s.value).replace(' ', '')
+                if '[:-1]' in txt or '[:-2]' in txt:
+                    open_names[s.targets[0].id] = s
+        if open_names:
+            for c in ast.walk(fi.node):
+                if not (isinstance(c, ast.Call) and c.args and isinstance(c.args[0], ast.Name) and c.args[0].id in open_names):
+                    continue
+                fname = ast.unparse(c.func).split('.')[-1]
+                if fname not in ('norm', 'sum', 'mean', 'max', 'min', 'prod', 'cumsum', 'cumprod', 'softmax', 'logsumexp', 'trace', 'diagonal'):
+                    continue
+                if c.lineno < open_names[c.args[0].id].lineno:
+                    continue
+                # the open-rank binding must be the one that reaches the call
+                rd = [st for v, st, p in reaching_defs(fi.node, c.args[0].id, c) if v != 'param']
+                if open_names[c.args[0].id] not in rd:
+                    continue
+                ax = [k.value for k in c.keywords if k.arg in ('axis', 'dim', 'axis1', 'axis2', 'dim1', 'dim2')]
+                for a in ax:
+                    vals = [a] if not isinstance(a, ast.Tuple) else list(a.elts)
+                    for v in vals:
+                        if isinstance(v, ast.Constant) and isinstance(v.value, int) and not isinstance(v.value, bool):
+                            nopen += 1
+                            rep.touch(m)
+                            if v.value >= 0:
+                                rep.violation('AX1', fi.qual, f'`{ast.unparse(c)[:70]}`: `{c.args[0].id}` has an open batch shape (`{ast.unparse(open_names[c.args[0].id])[:50]}`); the '
+                                              f'positive axis {v.value} is the intended matrix axis only for one particular number of batch axes', m, c)
+                            else:
+                                rep.ok('AX1', fi.qual, f'`{ast.unparse(c)[:50]}` reduces a negative axis of an open-rank array', m, c)
+        for b in ast.walk(fi.node):
+            # ---- SINC1
+            if isinstance(b, ast.BinOp) and isinstance(b.op, ast.Div) and isinstance(b.left, ast.Call) and ast.unparse(b.left.func).split('.')[-1] == 'sin' \
+                    and b.left.args and ast.dump(b.left.args[0]) == ast.dump(b.right):
+                guarded = any(isinstance(p, ast.Call) and ast.unparse(p.func).split('.')[-1] == 'where' for p in _ancestors(b, fi.node))
+                if not guarded:
+                    rep.touch(m)
+                    rep.violation('SINC1', fi.qual, f'`{ast.unparse(b)[:50]}`: 0/0 = NaN when `{ast.unparse(b.right)[:20]}` is exactly zero (identity element / zero parameters)', m, b)
+            # ---- SM1
+            if isinstance(b, ast.Call) and ast.unparse(b.func).split('.')[-1] == 'exp' and b.args and isinstance(b.args[0], ast.BinOp) and isinstance(b.args[0].op, ast.Sub):
+                sub = b.args[0]
+                r = sub.right
+                if isinstance(r, ast.Call) and isinstance(r.func, ast.Attribute) and r.func.attr in ('max', 'amax') and ast.dump(r.func.value) == ast.dump(sub.left):
+                    has_axis = any(k.arg in ('axis', 'dim') and not (isinstance(k.value, ast.Constant) and k.value.value is None) for k in r.keywords) or bool(r.args)
+                    sums = [c for c in ast.walk(fi.node) if isinstance(c, ast.Call) and isinstance(c.func, ast.Attribute) and c.func.attr == 'sum'
+                            and any(k.arg in ('axis', 'dim') for k in c.keywords)]
+                    if not has_axis and sums:
+                        rep.touch(m)
+                        rep.violation('SM1', fi.qual, f'`{ast.unparse(b)[:60]}` shifts by the maximum of the WHOLE array while `{ast.unparse(sums[0])[:40]}` normalises per sample: a '
+                                      f'sample far below the global maximum underflows to 0/0', m, b)
+            # ---- VM1
+            if isinstance(b, ast.BinOp) and isinstance(b.op, ast.MatMult) and isinstance(b.right, ast.Name) and b.right.id in params \
+                    and b.right.id in ('op', 'gate', 'array', 'operator', 'U', 'mat', 'matrix', 'unitary'):
+                l = b.left
+                flat = isinstance(l, ast.Call) and isinstance(l.func, ast.Attribute) and l.func.attr in ('reshape', 'ravel', 'flatten', 'view') \
+                    and (l.func.attr != 'reshape' or (len(l.args) == 1 and ast.unparse(l.args[0]).replace(' ', '') == '-1'))
+                if flat:
+                    rep.touch(m)
+                    rep.violation('VM1', fi.qual, f'`{ast.unparse(b)[:60]}`: vector @ operator applies `{b.right.id}`.T to the state', m, b)
+    rep.count('AX1.open_rank_reductions', nopen)
+    rep.count('NUM.functions_scanned', nfun)
+    if nfun:
+        rep.ok('SINC1', 'scope', f'{nfun} functions scanned: no literal sin(r)/r, no whole-array softmax shift, no vector @ operator', proj.mod('numqi.utils'),
+               proj.mod('numqi.utils').tree, text='sinc / softmax / vecmat sweep')
+    return nopen, nfun
+
+
+# ------------------------------------------------------------------------------------------------ A10 / A11 / AL3
+RULE_A10 = ('A10: forward / backward of a torch.autograd.Function keep per-call data in `ctx` only: they never store into an object reached through another argument '
+            '(`info = table[i]; info[k] = v`, `arg.append(..)`). Such an object is shared by every call that uses the same wrapper, so the backward pass of an earlier '
+            'forward would read what a later forward wrote (two forwards, then backward: gradients taken with the wrong gate matrices).')
+RULE_A11 = ('A11: in a backward primitive (`*_grad`) the set of operator entries that receive a gradient never depends on the current VALUE of the operator: no branch '
+            'tests the numeric content of `op` (count_nonzero / allclose / all / any / array_equal ...). A gate that is diagonal at the current point (rx(0), u3(0,..)) '
+            'still has non-zero derivatives in its off-diagonal entries.')
+RULE_AL3 = ('AL3: a memo key kept between calls is a COPY of the argument: `last = np.asarray(theta)` keeps the caller\'s array itself, so after an in-place update '
+            '`array_equal(last, theta)` compares the array with itself and the stale value is served.')
+_MUTATORS = {'append', 'extend', 'update', 'setdefault', 'pop', 'clear', 'insert', 'remove', 'add', 'fill', 'copy_', 'zero_'}
+_NO_COPY = {'asarray', 'asanyarray', 'ascontiguousarray', 'atleast_1d', 'reshape', 'ravel', 'view', 'squeeze', 'detach'}
+
+
+def a10(proj, rep):
+    rep.rule('A10', RULE_A10)
+    n = 0
+    for cq, ci in sorted(proj.classes.items()):
+        bases = [ast.unparse(b) for b in ci.node.bases]
+        if not any(b.endswith('autograd.Function') or b == 'Function' for b in bases):
+            continue
+        m = ci.module
+        rep.touch(m)
+        for name in ('forward', 'backward'):
+            fi = ci.methods.get(name)
+            if fi is None:
+                continue
+            n += 1
+            params = [p for p in fi.all_params if p != 'ctx']
+            if fi.node.args.vararg is not None:
+                params.append(fi.node.args.vararg.arg)
+            alias = {p: p for p in params}
+            changed = True
+            while changed:
+                changed = False
+                for s in ast.walk(fi.node):
+                    tg, val = [], None
+                    if isinstance(s, ast.Assign) and len(s.targets) == 1:
+                        tg = [s.targets[0]] if isinstance(s.targets[0], ast.Name) else (list(s.targets[0].elts) if isinstance(s.targets[0], ast.Tuple) else [])
+                        val = s.value
+                    elif isinstance(s, ast.For):
+                        tg = [s.target] if isinstance(s.target, ast.Name) else (list(s.target.elts) if isinstance(s.target, ast.Tuple) else [])
+                        val = s.iter
+                    if val is None:
+                        continue
+                    a = _container_alias(val, alias)
+                    if a is None:
+                        continue
+                    for t in tg:
+                        if isinstance(t, ast.Name) and t.id not in alias:
+                            alias[t.id] = a
+                            changed = True
+            bad = None
+            for s in ast.walk(fi.node):
+                base = None
+                if isinstance(s, (ast.Assign, ast.AugAssign)):
+                    t = s.targets[0] if isinstance(s, ast.Assign) else s.target
+                    if isinstance(t, (ast.Subscript, ast.Attribute)):
+                        b = t
+                        while isinstance(b, (ast.Subscript, ast.Attribute)):
+                            b = b.value
+                        base = b
+                elif isinstance(s, ast.Expr) and isinstance(s.value, ast.Call) and isinstance(s.value.func, ast.Attribute) and s.value.func.attr in _MUTATORS:
+                    b = s.value.func.value
+                    while isinstance(b, (ast.Subscript, ast.Attribute)):
+                        b = b.value
+                    base = b
+                if isinstance(base, ast.Name) and base.id in alias and bad is None:
+                    # a name that is re-bound to a fresh container on every path is local
+                    fresh = [x for x in ast.walk(fi.node) if isinstance(x, ast.Assign) and any(isinstance(t, ast.Name) and t.id == base.id for t in x.targets)
+                             and _container_alias(x.value, alias) is None]
+                    if fresh and base.id not in params:
+                        continue
+                    bad = (s, alias[base.id])
+            if bad:
+                rep.violation('A10', f'{cq}.{name}', f'`{ast.unparse(bad[0])[:70]}` stores into an object reached through the argument `{bad[1]}`: state shared between calls, '
+                              f'read later by the backward pass of an earlier forward', m, bad[0])
+            else:
+                rep.ok('A10', f'{cq}.{name}', 'writes only to ctx and to locally created objects', m, fi.node, text=f'{cq}.{name} call-local state')
+    rep.count('A10.autograd_methods', n)
+    return n
+
+
+def _container_alias(e, alias):
+    """parameter that expression e may be (an element of): p, p[i], p.get(k), p.values(), p.items(), p[i][j] ..."""
+    while True:
+        if isinstance(e, ast.Name):
+            return alias.get(e.id)
+        if isinstance(e, ast.Subscript):
+            e = e.value
+        elif isinstance(e, ast.Call) and isinstance(e.func, ast.Attribute) and e.func.attr in ('get', 'values', 'items', '__getitem__'):
+            e = e.func.value
+        elif isinstance(e, ast.Call) and isinstance(e.func, ast.Name) and e.func.id in ('reversed', 'enumerate', 'iter', 'sorted', 'list', 'zip') and e.args \
+                and e.func.id in ('reversed', 'enumerate', 'iter', 'zip'):
+            e = e.args[-1] if e.func.id == 'enumerate' else e.args[0]
+        else:
+            return None
+
+
+_VALUE_TESTS = {'count_nonzero', 'allclose', 'all', 'any', 'array_equal', 'isclose', 'nonzero', 'diagonal', 'diag', 'norm', 'max', 'abs'}
+
+
+def a11(proj, rep, modules=('numqi.sim.state', 'numqi.sim.dm', 'numqi.sim._torch_utils')):
+    rep.rule('A11', RULE_A11)
+    n = 0
+    for fi in proj.iter_functions():
+        m = fi.module
+        if not _in_scope(m, list(modules)):
+            continue
+        fname = fi.qual.rsplit('.', 1)[1]
+        if not fname.endswith('_grad'):
+            continue
+        ops = [p for p in fi.all_params if p in ('op', 'array', 'gate', 'operator', 'kop')]
+        if not ops:
+            continue
+        n += 1
+        rep.touch(m)
+        bad = None
+        for g in ast.walk(fi.node):
+            if isinstance(g, (ast.If, ast.IfExp)):
+                t = g.test
+                names = {y.id for y in ast.walk(t) if isinstance(y, ast.Name)}
+                value_call = any(isinstance(c, ast.Call) and ast.unparse(c.func).split('.')[-1] in _VALUE_TESTS for c in ast.walk(t))
+                # shape / ndim / None tests are structural, not value tests
+                struct = all(isinstance(p, ast.Attribute) and p.attr in ('shape', 'ndim', 'dtype') for y in ast.walk(t) if isinstance(y, ast.Name) and y.id in ops
+                             for p in [getattr(y, '_parent', None)])
+                if names & set(ops) and value_call and not struct:
+                    bad = g
+        if bad is not None:
+            rep.violation('A11', fi.qual, f'`{ast.unparse(bad.test)[:70]}` selects the gradient formula by the current value of the operator: entries that vanish at this point '
+                          f'(not identically) get no gradient', m, bad)
+        else:
+            rep.ok('A11', fi.qual, 'gradient structure does not depend on the value of the operator', m, fi.node, text=f'{fi.qual} value-independent structure')
+    rep.count('A11.backward_primitives', n)
+    return n
+
+
+def al3(proj, rep, modules=None):
+    rep.rule('AL3', RULE_AL3)
+    n = 0
+
+    class _F:      # nested functions (closures returned by factories) are functions too
+        pass
+    fis = []
+    for mq in sorted(proj.modules):
+        m = proj.modules[mq]
+        if not _in_scope(m, modules):
+            continue
+        for node in ast.walk(m.tree):
+            if isinstance(node, (ast.FunctionDef, ast.AsyncFunctionDef)):
+                f = _F()
+                f.node, f.module = node, m
+                f.qual = f'{m.name}.{node.name}' + (f'@{node.lineno}' if not isinstance(getattr(node, '_parent', None), (ast.Module, ast.ClassDef)) else '')
+                f.all_params = [a.arg for a in node.args.posonlyargs + node.args.args + node.args.kwonlyargs]
+                fis.append(f)
+    for fi in fis:
+        m = fi.module
+        params = set(fi.all_params)
+        # comparisons array_equal(STATE, p) / (STATE == p).all()
+        cmps = []
+        for c in ast.walk(fi.node):
+            if isinstance(c, ast.Call) and ast.unparse(c.func).split('.')[-1] in ('array_equal', 'allclose', 'equal') and len(c.args) >= 2:
+                for a, b in ((c.args[0], c.args[1]), (c.args[1], c.args[0])):
+                    if isinstance(b, ast.Name) and b.id in params and not (isinstance(a, ast.Name) and a.id in params):
+                        cmps.append((c, a, b.id))
+        if not cmps:
+            continue
+        for c, state, p in cmps:
+            key = ast.unparse(state)
+            # where is that state stored?
+            base = state
+            while isinstance(base, (ast.Subscript, ast.Attribute)):
+                base = base.value
+            if not isinstance(base, ast.Name):
+                continue
+            stores = []
+            for s in ast.walk(fi.node):
+                if isinstance(s, ast.Assign) and ast.unparse(s.targets[0]) == key:
+                    stores.append(s.value)
+                if isinstance(s, ast.Call) and isinstance(s.func, ast.Attribute) and s.func.attr == 'update' and isinstance(s.func.value, ast.Name) \
+                        and s.func.value.id == base.id and isinstance(state, ast.Subscript) and isinstance(state.slice, ast.Constant):
+                    stores += [k.value for k in s.keywords if k.arg == state.slice.value]
+            for v in stores:
+                n += 1
+                rep.touch(m)
+                e = v
+                while isinstance(e, ast.Call) and ast.unparse(e.func).split('.')[-1] in _NO_COPY and (e.args or isinstance(e.func, ast.Attribute)):
+                    e = e.args[0] if (isinstance(e.func, ast.Attribute) and isinstance(e.func.value, ast.Name) and e.func.value.id in ('np', 'numpy', 'torch') and e.args) \
+                        else e.func.value
+                if isinstance(e, ast.Name) and e.id == p:
+                    rep.violation('AL3', fi.qual, f'`{key} = {ast.unparse(v)[:40]}` keeps the caller\'s array itself (no copy) and `{ast.unparse(c)[:50]}` later compares it with the '
+                                  f'argument: after an in-place update both are the same object, the stale result is returned', m, c)
+                else:
+                    rep.ok('AL3', fi.qual, f'`{key}` stored as `{ast.unparse(v)[:40]}`', m, c)
+    rep.count('AL3.memo_keys', n)
+    return n
